@@ -193,6 +193,9 @@ HonestSet ==
         \cup { Honest("h-" \o ToString(a) \o "-" \o ToString(i) \o "-v" \o ToString(pr) \o (IF lk THEN "L" ELSE "N") \o (IF kg THEN "K" ELSE "P"),
                       Scn(base + 200 + pr * 4 + (IF lk THEN 2 ELSE 0) + (IF kg THEN 1 ELSE 0), a, i, 1, 5 + pr, 8 + pr, kg, pr, lk), Lens(base + 200 + pr))
                : pr \in 0..5, lk \in BOOLEAN, kg \in BOOLEAN }
+        \* a BMC that grants less than was asked for, or leaves the level unspecified (0): RAKP 1 still carries what the caller asked for
+        \cup { Honest("h-" \o ToString(a) \o "-" \o ToString(i) \o "-lower" \o ToString(pr) \o ToString(g),
+                      Scn(base + 320 + pr * 6 + g, a, i, 1, 6, 9, (g % 2) = 0, pr, TRUE) @@ [grant |-> g], Lens(base + 320 + g)) : pr \in {3, 4}, g \in {0, 2} }
         \* "highest level" requested (0) and a BMC that answers the Open Session Request with the level it resolved that to
         \cup { Honest("h-" \o ToString(a) \o "-" \o ToString(i) \o "-g" \o ToString(g) \o (IF lk THEN "L" ELSE "N"),
                       Scn(base + 300 + g, a, i, 1, 6, 9, lk, 0, lk) @@ [grant |-> g], Lens(base + 300 + g)) : g \in {2, 4, 5}, lk \in BOOLEAN }
@@ -201,6 +204,16 @@ HonestSet ==
                  Scn(base + 400 + u * 21 + p, a, i, 1, u, p, ((u + p) % 2) = 0, (u + p) % 6, ((u * p) % 2) = 0), Lens(base + u + p)) : u \in 0..16, p \in 0..20 }
   IN UNION { perSuite(s[1], s[2], (s[1] * 10 + s[2]) * 1000) \cup extra(s[1], s[2], (s[1] * 10 + s[2]) * 1000) : s \in suites }
 
+\* a BMC key whose first byte is 00h is a key like any other: with a BMC that holds it the session is established with it,
+\* and a BMC that holds no key at all (its SIK comes from the password) cannot pass for one that does
+KgZeroSet ==
+  { LET s == SetToSuite(q)
+        S0 == Scn(9400 + q + Seed, s[1], s[2], 1, 5, 9, TRUE, 4, TRUE)
+        SZ == [S0 EXCEPT !.kg = [i \in 1..20 |-> IF i <= z THEN 0 ELSE S0.kg[i]]]
+        SN == [SZ EXCEPT !.kg = <<>>] IN
+    IF held THEN Honest("kgzero-" \o ToString(q) \o "-" \o ToString(z) \o "-held", SZ, <<3>>)
+    ELSE MutatedH("kgzero-" \o ToString(q) \o "-" \o ToString(z) \o "-none", SZ, SN, 3, R4Dg(SN), "error", "wrongKg", FALSE, TRUE)
+    : q \in 1..3, z \in {1, 2, 19}, held \in BOOLEAN }
 \* suites with None: must be refused with an error or succeed with the same guarantees
 NoneSet ==
   { ScriptOf("none-" \o ToString(a) \o "-" \o ToString(t[1]) \o "-" \o ToString(t[2]), "none", Scn(7000 + a * 10 + t[1] + t[2], a, t[1], t[2], 4, 8, FALSE, 4, TRUE),
@@ -221,7 +234,16 @@ MutateSet ==
 
 TripleSet ==
   LET props == IF Full THEN SupportedSuites ELSE {<<1, 1>>, <<3, 4>>, <<1 + (Seed % 3), IF (Seed % 3) = 2 THEN 4 ELSE 1 + (Seed % 3)>>}
-  IN UNION { Triples(Scn(9500 + s[1] * 10 + s[2], s[1], s[2], 1, 4, 6, FALSE, 4, TRUE), "t" \o ToString(s[1]) \o ToString(s[2])) : s \in props }
+      \* an algorithm payload of length 0 naming algorithm 0 ("wildcard" in a request) confirms nothing
+      wild(S, id0) == { ScriptOf(id0 \o "-wild-" \o ToString(w), "triples", S,
+                                 << NewSessionCall(S, ExpErr(S, "anyerror")),
+                                    WithDg(HonestOsr(S), CASE w = 1 -> SetByte(SetByte(OsrDg(S), 16 + 23, 0), 16 + 24, 0)
+                                                           [] w = 2 -> SetByte(SetByte(OsrDg(S), 16 + 31, 0), 16 + 32, 0)
+                                                           [] w = 3 -> SetByte(SetByte(SetByte(SetByte(OsrDg(S), 16 + 23, 0), 16 + 24, 0), 16 + 31, 0), 16 + 32, 0)
+                                                           [] OTHER -> SetByte(SetByte(OsrDg(S), 16 + 15, 0), 16 + 16, 0)),
+                                    HonestRakp2(S), HonestRakp4(S), ExpectSession(S) >>, [mut |-> "triple-wildcard", triple |-> <<w, 0, 0>>]) : w \in 1..4 }
+  IN UNION { Triples(Scn(9500 + s[1] * 10 + s[2], s[1], s[2], 1, 4, 6, FALSE, 4, TRUE), "t" \o ToString(s[1]) \o ToString(s[2]))
+             \cup wild(Scn(9500 + s[1] * 10 + s[2], s[1], s[2], 1, 4, 6, FALSE, 4, TRUE), "t" \o ToString(s[1]) \o ToString(s[2])) : s \in props }
      \cup OddProposals(Scn(9600 + Seed, 1 + (Seed % 3), IF (Seed % 3) = 2 THEN 4 ELSE 1 + (Seed % 3), 1, 4, 6, FALSE, 4, TRUE), "p")
 
 RetrySet ==
@@ -347,7 +369,17 @@ PinnedThenDefault(id, k, adv17, api2) ==
                  \* (the script's key recipes are those of the second session, so the first one is only established, not used)
                  NewSessionCall(pinned, ExpSession(pinned)),
                  call2, ExpectSession(want) >> \o Commands(want, <<4>>), [mut |-> "none"])
-PinnedSet == { PinnedThenDefault("pin-" \o ToString(k) \o (IF a THEN "-17-" ELSE "-3-") \o api, k, a, api) : k \in 1..(IF Full THEN 6 ELSE 2), a \in BOOLEAN, api \in {"NewSession", "NewV2Session"} }
+\* default preferences first (17 is chosen), then an explicit list that ranks suite 3 above 17 on the same connection
+DefaultThenOrdered(id, k) ==
+  LET S17 == Scn(13700 + k, 3, 4, 1, 4 + (k % 5), 7 + (k % 9), FALSE, 4, TRUE)
+      S3 == [S17 EXCEPT !.authAlg = "sha1", !.integAlg = "sha1", !.authNum = 1, !.integNum = 1, !.icvLen = 12, !.integLen = 12]
+      data == StdRec(17, 3, 4, 1) \o StdRec(3, 1, 1, 1) \o StdRec(8, 2, 2, 1)
+      first == [NewSessionCall(S17, ExpSession(S17)) EXCEPT !.args = [@ EXCEPT !.CipherSuites = <<>>]]
+      second == [NewSessionCall(S3, ExpSession(S3)) EXCEPT !.args = [@ EXCEPT !.CipherSuites =
+                   << [AuthenticationAlgorithm |-> 1, IntegrityAlgorithm |-> 1, ConfidentialityAlgorithm |-> 1],
+                      [AuthenticationAlgorithm |-> 3, IntegrityAlgorithm |-> 4, ConfidentialityAlgorithm |-> 1] >>]]
+  IN ScriptOf(id, "default", S3, << [k |-> "rules", rules |-> CipherRules(data) \o LegRules(S17, S3)], first, second, ExpectSession(S3) >> \o Commands(S3, <<4>>), [mut |-> "none"])
+PinnedSet == { DefaultThenOrdered("ord-" \o ToString(k), k) : k \in 1..2 } \cup { PinnedThenDefault("pin-" \o ToString(k) \o (IF a THEN "-17-" ELSE "-3-") \o api, k, a, api) : k \in 1..(IF Full THEN 6 ELSE 2), a \in BOOLEAN, api \in {"NewSession", "NewV2Session"} }
 DefaultSet == { DefaultScript("def-" \o ToString(k) \o (IF a THEN "-17-" ELSE "-3-") \o api, k, a, api) : k \in 1..(IF Full THEN 12 ELSE 3), a \in BOOLEAN, api \in {"NewSession", "NewV2Session"} }
 
 \* ------------------------------------------- two establishments on one connection with different credentials
@@ -413,9 +445,9 @@ LongCredSet ==
              [mut |-> IF kind = "pw" THEN "wrongPw" ELSE "wrongKg"])
     \* (16 bytes was the password field of IPMI v1.5; v2.0 allows 20: the first 16 / 20 bytes equal the BMC's)
     : q \in 1..9, kind \in {"pw", "kg"}, base \in {16, 20}, extra \in {1, 4, 12, 44} }
-Scripts == CASE Family = "honest" -> HonestSet \cup NoneSet \cup DefaultSet \cup PinnedSet
+Scripts == CASE Family = "honest" -> HonestSet \cup NoneSet \cup DefaultSet \cup PinnedSet \cup {x \in KgZeroSet : x.info.mut = "none"}
              [] Family = "longuser" -> LongUserSet
-             [] Family = "rekey" -> RekeySet \cup LongCredSet \cup FleetSet \cup ReusedSet
+             [] Family = "rekey" -> RekeySet \cup LongCredSet \cup FleetSet \cup ReusedSet \cup {x \in KgZeroSet : x.info.mut # "none"}
              [] Family = "lifecycle" -> LifecycleSet
              [] Family = "lifecyclex" -> LifecycleXSet
              [] Family = "long" -> LongSet
